@@ -181,7 +181,7 @@ prop("C17", "exploration",
      {"quick": 80, "thorough": 500},
      ["'observed height' is the active account's last confirmed height after a successful refresh at the tip",
       "a refresh that returns an error or validated=false is not judged"],
-     required_hist=["refused-expired:Receive", "refused-expired:Finalize", "refused-expired:PayInvoice", "refused-expired:FinalizeInvoice", "accepted-in-time:Receive", "refresh-released-expired", "step-arrives-while-another-account-is-active:Receive", "huge-ttl_blocks:cutoff-ahead", "refresh-case:older-ttl-send-confirmed-only-by-its-kernel", "refresh-kept-unexpired", "refresh-kept-other-pending", "refresh-case:self-send-in-one-account", "pay-invoice-with-own-ttl_blocks"])
+     required_hist=["refused-expired:Receive", "refused-expired:Finalize", "refused-expired:PayInvoice", "refused-expired:FinalizeInvoice", "accepted-in-time:Receive", "refresh-released-expired", "step-arrives-while-another-account-is-active:Receive", "huge-ttl_blocks:cutoff-ahead", "height-observed-only-through-an-output-refresh-inside-another-operation", "refresh-case:older-ttl-send-confirmed-only-by-its-kernel", "refresh-kept-unexpired", "refresh-kept-other-pending", "refresh-case:self-send-in-one-account", "pay-invoice-with-own-ttl_blocks"])
 
 prop("C05", "exploration",
      "two wallets x two accounts; pending transaction kinds (sent: locked / received by peer / finalized; received; received then finalized by peer; invoice payee: issued / processed; "
@@ -213,7 +213,7 @@ prop("C02", "exploration",
       {"name": "c02-asan", "cmd": "c02", "shards": 12, "tiers": ["thorough"], "run_tier": "quick", "build": "asan", "tag": "asan", "crash_is_violation": True, "timeout": {"thorough": 3000}}],
      {"quick": 800, "thorough": 5000},
      ["kernel-feature arguments are excluded as the statement says", "honest replies that fail are inconclusive, never violations"],
-     required_hist=["success-exact:Send", "success-exact:Invoice", "success-exact:LateLock", "success-exact:SelfSend", "refused:altered", "cancel-after-refused-reply-restores-balance", "late-lock-cli-order:accepted-with-inputs-reserved", "planted-receive-with-the-id-of-the-pending-send:accepted"])
+     required_hist=["success-exact:Send", "success-exact:Invoice", "success-exact:LateLock", "success-exact:SelfSend", "refused:altered", "cancel-after-refused-reply-restores-balance", "late-lock-cli-order:accepted-with-inputs-reserved", "planted-receive-with-the-id-of-the-pending-send:accepted", "cross-account-cancel:other-accounts-send-finalized-with-inputs-reserved"])
 
 prop("C11", "exploration",
      "proof-carrying sends (send, late-locked, self-send; random amounts and change shapes) whose replies are altered field-wise (proof stripped, signature "
@@ -258,7 +258,7 @@ prop("C13", "exploration",
      [{"name": "c13", "cmd": "c13", "shards": {"quick": 12, "thorough": 16}, "crash_is_violation": True}],
      {"quick": 5000, "thorough": 100000},
      ["a request with valid ciphertext under the current key but another envelope method string is a don't-care (the statement only forbids effects of unauthenticated requests)"],
-     required_hist=["key-exchange:plaintext", "key-exchange:encrypted-reinit", "authenticated:inner-ok", "authenticated:inner-error", "unauthenticated:plaintext-call", "unauthenticated:envelope-under-superseded-key", "unauthenticated:bit-flipped-body", "unauthenticated:batch-array", "unauthenticated:batch-array-with-key-exchange", "authenticated:batch-with-key-exchange", "in-flight-request-answered-under-its-own-key"])
+     required_hist=["key-exchange:plaintext", "key-exchange:encrypted-reinit", "authenticated:inner-ok", "authenticated:inner-error", "unauthenticated:plaintext-call", "unauthenticated:envelope-under-superseded-key", "unauthenticated:bit-flipped-body", "unauthenticated:batch-array", "unauthenticated:batch-array-with-key-exchange", "authenticated:batch-with-key-exchange", "in-flight-request-answered-under-its-own-key", "late-body-under-superseded-key:refused"])
 
 prop("C14", "exploration",
      "wallets opened with a keychain mask through api::Owner::open_wallet (their tokens must differ); 30 api::Owner methods (each with arguments valid for the current state: own initiated / locked slates, a "
